@@ -23,6 +23,7 @@ import (
 	"github.com/robustirc/robustirc/internal/verifgen"
 	"github.com/robustirc/robustirc/internal/verifmon"
 	"github.com/robustirc/robustirc/internal/verifrep"
+	"github.com/robustirc/robustirc/internal/verifview"
 )
 
 func mustNode(rep *verifrep.R, name string) (*vnode, *vclient) {
@@ -550,6 +551,12 @@ func TestVerifC11(t *testing.T) {
 	cm++
 	c.post(logged, "PRIVMSG #secret :SECRET-PAYLOAD-2", cm)
 	c.deleteSession(deleted, []byte(`{"Quitmessage":"gone"}`))
+	// a session that is deleted before it ever registered: its secret is dead as well
+	deletedFresh := mk("", false)
+	if deletedFresh == nil {
+		return
+	}
+	c.deleteSession(deletedFresh, []byte(`{"Quitmessage":"never registered"}`))
 	waitApplied(n)
 	last, _ := n.logStore.LastIndex()
 	never := &vsession{Id: fmt.Sprintf("0x%x", last+1000), Auth: logged.Auth, N: last + 1000}
@@ -580,7 +587,7 @@ func TestVerifC11(t *testing.T) {
 	targets := []struct {
 		name string
 		s    *vsession
-	}{{"fresh", fresh}, {"logged-in", logged}, {"other", other}, {"deleted", deleted}, {"killed-by-oper", killed}, {"never-existed", never}}
+	}{{"fresh", fresh}, {"logged-in", logged}, {"other", other}, {"deleted", deleted}, {"deleted-before-registering", deletedFresh}, {"killed-by-oper", killed}, {"never-existed", never}}
 	idForms := func(s *vsession) []string {
 		return []string{s.Id, fmt.Sprint(s.N)}
 	}
@@ -598,7 +605,7 @@ func TestVerifC11(t *testing.T) {
 						{"HEAD", "/messages", ""},
 					} {
 						hv, present := cr.val(tg.s)
-						if present && tg.s.Auth != "" && hv == tg.s.Auth && tg.name != "deleted" && tg.name != "killed-by-oper" && tg.name != "never-existed" {
+						if present && tg.s.Auth != "" && hv == tg.s.Auth && tg.name != "deleted" && tg.name != "deleted-before-registering" && tg.name != "killed-by-oper" && tg.name != "never-existed" {
 							continue // happens to be the right secret
 						}
 						hdr := map[string]string{}
@@ -628,6 +635,52 @@ func TestVerifC11(t *testing.T) {
 					}
 				}
 			}
+		}
+		// the right secret opens exactly the session it was issued for: whatever else the body
+		// names (another session, another entry type, an id, an address) is not acted upon
+		for k, tmpl := range []string{
+			`{"Data":"PRIVMSG #secret :SMUGGLE-%[1]d","ClientMessageId":%[2]d,"Session":{"Id":%[3]d,"Reply":0}}`,
+			`{"Data":"PRIVMSG #secret :SMUGGLE-%[1]d","ClientMessageId":%[2]d,"session":{"id":%[3]d}}`,
+			`{"Data":"SMUGGLE-%[1]d","ClientMessageId":%[2]d,"Session":{"Id":%[3]d},"Type":1}`,
+			`{"Data":"PRIVMSG #secret :SMUGGLE-%[1]d","ClientMessageId":%[2]d,"Type":1}`,
+			`{"Data":"PRIVMSG #secret :SMUGGLE-%[1]d","ClientMessageId":%[2]d,"Type":6,"Revision":99}`,
+			`{"Data":"PRIVMSG #secret :SMUGGLE-%[1]d","ClientMessageId":%[2]d,"Id":{"Id":%[3]d,"Reply":7},"UnixNano":1,"RemoteAddr":"6.6.6.6","Servers":["evil:1"],"Currentmaster":"evil:1"}`,
+		} {
+			cm++
+			otherBefore := ircServer.VerifView().SessionById(verifview.Id{Id: other.N})
+			loggedBefore := ircServer.VerifView().SessionById(verifview.Id{Id: logged.N})
+			lastBefore, _ := n.logStore.LastIndex()
+			code, _ := doCtx(context.Background(), c, "POST", "/robustirc/v1/"+logged.Id+"/message", map[string]string{"X-Session-Auth": logged.Auth}, fmt.Sprintf(tmpl, k, cm, other.N))
+			waitApplied(n)
+			v := ircServer.VerifView()
+			otherAfter, loggedAfter := v.SessionById(verifview.Id{Id: other.N}), v.SessionById(verifview.Id{Id: logged.N})
+			key := fmt.Sprintf("smuggled-fields:%d", k)
+			switch {
+			case otherBefore == nil || loggedBefore == nil:
+				rep.Broken("the probe sessions are gone")
+				return
+			case otherAfter == nil:
+				viol("own-secret-acts-on-other-session:"+key, fmt.Sprintf("a POST authenticated as session %s whose body names session %s ended that session (HTTP %d)", logged.Id, other.Id, code))
+				return
+			case loggedAfter == nil:
+				viol("own-secret-acts-on-other-session:"+key, fmt.Sprintf("a POST to /message with extra body fields ended the posting session (HTTP %d)", code))
+				return
+			case otherAfter.Nick != otherBefore.Nick || otherAfter.LastClientMessageId != otherBefore.LastClientMessageId || otherAfter.LastActivity != otherBefore.LastActivity:
+				viol("own-secret-acts-on-other-session:"+key, fmt.Sprintf("a POST authenticated as session %s whose body names session %s was applied to that session", logged.Id, other.Id))
+			}
+			lastAfter, _ := n.logStore.LastIndex()
+			for idx := lastBefore + 1; idx <= lastAfter; idx++ {
+				if m := robustLogAt(n, idx); m != nil && strings.Contains(m.Data, "SMUGGLE-") {
+					if m.Session.Id != logged.N || m.Type != robust.IRCFromClient || m.RemoteAddr == "6.6.6.6" || m.Revision != 0 || len(m.Servers) != 0 {
+						viol("own-secret-acts-on-other-session:"+key, fmt.Sprintf("the entry committed for a POST authenticated as session %s carries session %#x, type %v, address %q, revision %d", logged.Id, m.Session.Id, m.Type, m.RemoteAddr, m.Revision))
+					}
+				}
+			}
+			if v.Config.Revision != ircServer.VerifView().Config.Revision {
+				viol("own-secret-acts-on-other-session:"+key, "configuration changed")
+			}
+			rep.Case(fmt.Sprintf("public|smuggled-fields|%d|%d", k, code))
+			rep.Obs("public.smuggled-field-probes", 1)
 		}
 		// the right secret works (positive control; otherwise 'refuse everything' would pass)
 		cm++
